@@ -71,6 +71,7 @@ def run(chk):
     core_rules.strategy_allocate_rules(chk, "C19")
     tree_rules.universe_rules(chk, "C19")
     tree_rules.setup_from_parent_rules(chk, "C19")
+    tree_rules.shadow_creation(chk, "C19")
     tree_rules.full_name_members(chk, "C19")
     core_rules.strategy_update(chk, "C19")
     core_rules.security_setup_rules(chk, "C19")
